@@ -139,9 +139,13 @@ def analyse(ctx, fn, m, hdr, off, names, rep):
             raise Unsupported('parameter type %r' % t)
     it = symx.Interp(dom, lookup_in([m, hdr]), max_paths=2000, inline=lambda n: n not in summaries)
     it.prune_loops = True
+    facts0 = [fm.le(S('num_'), S('mem_')), fm.le(S('mem_'), MAXP), fm.le(0, S('num_'))]
+    ls = lin.LoopSummary(facts0, None)
+    it.loop_hook = ls
+    it.loop_leaves = []
     leaves = it.run(fn, args)
     pruned = getattr(it, 'pruned', 0)
-    facts0 = [fm.le(S('num_'), S('mem_')), fm.le(S('mem_'), MAXP), fm.le(0, S('num_'))]
+    loop_leaves = list(it.loop_leaves)
     for s in psyms:
         facts0 += [fm.le(0, s), fm.le(s, TWO64 - 1)]
     # source blocks of documented length hold that many bytes: nbyte <= PTRDIFF_MAX
@@ -163,9 +167,10 @@ def analyse(ctx, fn, m, hdr, off, names, rep):
         rep.unk('K2', name, str(e), loc=loc)
     nob = 0
     viol, unk = [], []
-    for lf in leaves:
+    for lf in leaves + loop_leaves:
+        in_loop = hasattr(lf, 'loop_obligations')
         try:
-            cases = lin.cases_of(dom, lf, facts0)
+            cases = lin.cases_of(dom, lf, facts0, extra_terms=[x for o in getattr(lf, 'loop_obligations', []) for x in o[1:]])
         except Unsupported as e:
             unk.append(str(e))
             continue
@@ -197,14 +202,25 @@ def analyse(ctx, fn, m, hdr, off, names, rep):
                                   [fm.le(0, X), fm.le(0, Y), fm.le(X + Y, cap)], e))
                 except fm.NonLinear:
                     unk.append('non-linear extent of %s' % e.name)
-            if not name.endswith('_dtor') and not name.endswith('_die'):
+            for desc_, a_, b_ in getattr(lf, 'loop_obligations', []):
+                try:
+                    goals.append(('loop summary: ' + desc_, [fm.le(a_, b_), fm.le(b_, a_)], 'loop'))
+                except fm.NonLinear:
+                    unk.append('non-linear loop summary')
+            if not name.endswith('_dtor') and not name.endswith('_die') and not in_loop:
                 try:
                     goals.append(('num_ <= mem_ at exit (num_=%s, mem_=%s)' % (fin['num_'], fin['mem_']), [fm.le(fin['num_'], fin['mem_']), fm.le(0, fin['num_'])], None))
                 except fm.NonLinear:
                     unk.append('non-linear final fields')
             # N1: terminator behind the content when the function changed the content
-            if terminating and name != 'a_str_exit' and isinstance(ptr_final, Ptr) and ptr_final.base == '*ptr_' and not (ptr_null and ('grown',) not in lf.calls):
+            if not in_loop and terminating and name != 'a_str_exit' and isinstance(ptr_final, Ptr) and ptr_final.base == '*ptr_' and not (ptr_null and ('grown',) not in lf.calls):
                 changed = ('ctx', off['num_']) in lf.store and not alg.is_zero(fin['num_'] - S('num_'))
+                if changed:
+                    try:
+                        if all(fm.entails(cs.cons, lin.subst_con(g, cs.kenv)) for g in fm.eq(fin['num_'], S('num_'))):
+                            changed = False      # the path condition forces the length to be what it was
+                    except fm.NonLinear:
+                        pass
                 wrote = any(isinstance(e, Effect) and e.base == '*ptr_' and e.kind in ('store', 'write') for e in lf.calls)
                 if changed:
                     # a store of 0 at offset num_final, or a formatter NUL fact at that offset
@@ -239,10 +255,13 @@ def analyse(ctx, fn, m, hdr, off, names, rep):
                 ok, failing = lin.prove(cs, gs)
                 if ok:
                     continue
+                if e == 'loop':
+                    unk.append('cannot prove: %s' % desc)
+                    continue
                 w = lin.witness(cs, failing, None)
                 if w is not None:
                     wit = ', '.join('%s=%s' % (k, v) for k, v in sorted(w.items(), key=lambda kv: str(kv[0])) if not str(k).startswith(('k', 'q', 'r', 'M', '&', 'u', 'p')))
-                    viol.append((desc, wit, fn.loc(e.ins) if e is not None and e.ins else loc, cs.kenv, 'B1' if 'exit' in desc and 'terminator' not in desc else ('N1' if 'terminator' in desc else 'B2')))
+                    viol.append((desc, wit, fn.loc(e.ins) if e is not None and not isinstance(e, str) and e.ins else loc, cs.kenv, 'B1' if 'exit' in desc and 'terminator' not in desc else ('N1' if 'terminator' in desc else 'B2')))
                 else:
                     unk.append('cannot prove: %s' % desc)
     if viol:
@@ -257,9 +276,11 @@ def analyse(ctx, fn, m, hdr, off, names, rep):
     elif unk:
         rep.unk('B2', name, '; '.join(sorted(set(unk))[:2])[:400], loc=loc)
     else:
-        rep.ok('B2', name, '%d paths, %d obligations discharged (byte accesses, block effects, exit invariant%s)%s'
-               % (len(leaves), nob, ', terminator' if terminating else '', '; %d paths enter loops that are not summarised (not decided)' % pruned if pruned else ''), loc=loc,
+        rep.ok('B2', name, '%d paths%s, %d obligations discharged (byte accesses, block effects, exit invariant%s)%s'
+               % (len(leaves), ' + %d loop-iteration paths of summarised loops' % len(loop_leaves) if loop_leaves else '', nob, ', terminator' if terminating else '', '; %d paths enter loops that are not summarised (not decided)' % pruned if pruned else ''), loc=loc,
                sample={'fn': name, 'paths': len(leaves), 'obligations': nob, 'pruned_loop_paths': pruned})
+    for n_ in ls.notes:
+        rep.note(n_)
 
 
 def catv_protocol(ctx, m, off, names, rep):
@@ -359,14 +380,21 @@ def run(ctx):
     for n, f in sorted(hdr.functions.items()):
         if not f.error and n.startswith('a_str_') and n not in m.functions:
             fns.append(f)
+    todo = []
     for f in fns:
         ctx.rep.functions.add(f.name)
         if not f.params or not f.params[0][0].is_ptr or f.name in ('a_str_cmp_', 'a_str_swap', 'a_str_new', 'a_str_die'):
             continue
+        todo.append(f)
+    byname = {f.name: f for f in todo}
+
+    def one(nm, r_):
         try:
-            analyse(ctx, f, m, hdr, off, names, rep)
+            analyse(ctx, byname[nm], m, hdr, off, names, r_)
         except Unsupported as e:
-            rep.unk('B2', f.name, str(e))
+            r_.unk('B2', nm, str(e))
+    import par
+    par.fan_out(rep, [f.name for f in todo], one)
     catv_protocol(ctx, m, off, names, rep)
     compare_rule(ctx, m, rep)
     import stale
